@@ -132,7 +132,7 @@ def gen(rng, tier):
     if tree_bias:
         cfg_keys = ["split_every", "split_every", "split_every", "array.optimize-graph", "array.chunk-size"]
     hist = gen_history(rng, targets, cfg_keys, tier)
-    return {"recipe": recipe, "targets": targets, "history": hist}
+    return {"scribble": rng.random() < 0.5, "recipe": recipe, "targets": targets, "history": hist}
 
 
 def gen_history(rng, targets, cfg_keys, tier):
